@@ -256,6 +256,10 @@ fn explore_stream(st: &Stream, max_cuts: usize, cut_hi: usize, near: Option<&[bo
     // 1-byte dribble
     let all: Vec<usize> = (1..st.wire.len()).collect();
     go(&all);
+    // an empty read (e.g. an empty datagram) at every single cut position: the same position twice
+    for a in 1..=hi {
+        go(&[a, a]);
+    }
 }
 
 /// positions within +-4 bytes of an escape pair or a frame edge
